@@ -372,13 +372,11 @@ fn count_spreads(doc: &Doc) -> u64 {
         .sum()
 }
 
+/// secondary evidence, never judged: per family the parse time per byte and the execute time per unit of work
 #[derive(Default)]
 struct Timing {
-    /// worst parse time per byte and worst execute time per unit of work (secondary evidence)
-    parse_ns_per_byte: f64,
-    parse_worst: String,
-    exec_ns_per_work: f64,
-    exec_worst: String,
+    /// family -> (bytes, parse ns, work, execute ns)
+    sums: IndexMap<String, (u64, u128, u64, u128)>,
 }
 
 fn sample(env: &Env, f: Family, p: usize, k: Knobs, l: Limits, timing: &std::cell::RefCell<Timing>) -> Result<Sample, String> {
@@ -386,7 +384,7 @@ fn sample(env: &Env, f: Family, p: usize, k: Knobs, l: Limits, timing: &std::cel
     let doc = vgql::refparse::parse_executable(&text, &vgql::refparse::Opts::default()).map_err(|e| format!("HARNESS: family document does not parse: {}", e.msg))?;
     let t0 = Instant::now();
     let parsed = async_graphql_parser::parse_query(&text);
-    let parse_ns = t0.elapsed().as_nanos() as f64;
+    let parse_ns = t0.elapsed().as_nanos();
     if parsed.is_err() {
         return Err("HARNESS: family document rejected by the parser".into());
     }
@@ -397,16 +395,8 @@ fn sample(env: &Env, f: Family, p: usize, k: Knobs, l: Limits, timing: &std::cel
     }
     {
         let mut t = timing.borrow_mut();
-        let per_byte = parse_ns / text.len().max(1) as f64;
-        if text.len() >= 512 && per_byte > t.parse_ns_per_byte {
-            t.parse_ns_per_byte = per_byte;
-            t.parse_worst = format!("{:?} p={} bytes={}", f, p, text.len());
-        }
-        let per_work = obs.wall_ns as f64 / obs.work.max(1) as f64;
-        if obs.work >= 1000 && per_work > t.exec_ns_per_work {
-            t.exec_ns_per_work = per_work;
-            t.exec_worst = format!("{:?} p={} work={}", f, p, obs.work);
-        }
+        let e = t.sums.entry(format!("{:?}", f)).or_default();
+        *e = (e.0 + text.len() as u64, e.1 + parse_ns, e.2 + obs.work, e.3 + obs.wall_ns);
     }
     let inlined: u64 = doc.ops().map(|o| inlined_selections(&doc, &o.sel)).fold(0u64, |a, b| a.saturating_add(b));
     Ok(Sample { p, size: text.len() as u64, work: obs.work, inlined, spreads: count_spreads(&doc) })
@@ -469,7 +459,7 @@ pub fn run(ctx: &mut Ctx) {
     ctx.enumerated("ladders", count, true, t0);
 
     // random members of the polynomial families
-    let n_fam = ctx.tier.pick(1_500, 40_000);
+    let n_fam = ctx.tier.pick(500, 15_000);
     ctx.stream("families", n_fam, 16, |s| {
         let f = POLY_FAMILIES[s.choose(POLY_FAMILIES.len())];
         let p0 = 1 + s.choose((f.cap() / 4).min(BASE_CAP));
@@ -484,7 +474,7 @@ pub fn run(ctx: &mut Ctx) {
     });
 
     // random valid documents
-    let n_rand = ctx.tier.pick(6_000, 150_000);
+    let n_rand = ctx.tier.pick(20_000, 600_000);
     let tcfg = TypedCfg { max_depth: 5, max_width: 5, ops: vec![OpKind::Query, OpKind::Mutation], ..TypedCfg::default() };
     ctx.stream("random-documents", n_rand, 900, |s| {
         let on_z = s.bool();
@@ -535,19 +525,20 @@ pub fn run(ctx: &mut Ctx) {
     }
     ctx.enumerated("fan-out-chains", count, true, t0);
 
-    let t = timing.borrow();
-    ctx.note(
-        "secondary_timing",
-        serde_json::json!({"worst_parse_ns_per_byte": t.parse_ns_per_byte, "worst_parse_case": t.parse_worst, "worst_execute_ns_per_work_unit": t.exec_ns_per_work, "worst_execute_case": t.exec_worst,
-            "note": "wall-clock, not a verdict"}),
-    );
+    let per_family: serde_json::Map<String, serde_json::Value> = timing
+        .borrow()
+        .sums
+        .iter()
+        .map(|(k, v)| (k.clone(), serde_json::json!({"bytes": v.0, "parse_ns_per_byte": v.1 as f64 / v.0.max(1) as f64, "work": v.2, "execute_ns_per_work_unit": v.3 as f64 / v.2.max(1) as f64})))
+        .collect();
+    ctx.note("secondary_timing_wall_clock_not_a_verdict", serde_json::Value::Object(per_family));
     for f in POLY_FAMILIES {
-        ctx.floor(&format!("family-{:?}", f), 20);
+        ctx.floor(&format!("family-{:?}", f), 15);
     }
     ctx.floor("fan-out-chain", 10);
     ctx.floor("rejected", 500);
     ctx.floor("executed", 200);
-    ctx.floor("document>=4KiB", 100);
+    ctx.floor("document>=4KiB", 30);
 }
 
 /// upper end of the base parameter of the random family members (keeps their documents below ~100 KiB)
